@@ -161,12 +161,15 @@ theorem winFrameSize_le {i : WinInfo} {g v : Nat} (h : winFrameSize i g = some v
     exact ⟨by omega, b2⟩
 
 theorem u64_u32 : 2 * U32MAX + 16 ≤ U64MAX := by decide
+theorem fpo_word_eq : Consts.fpo_word = 4 := rfl
+theorem fpo_back_eq : Consts.fpo_ebp_back = 8 := rfl
 
 /-- the return-address half: no panic when the operands are 32-bit values, and the address it
     settles on is at most `esp + frame_size + 4` -/
 theorem fpoEip_ok (x : FpoIn) (esp fs : Nat) (he : esp ≤ U32MAX) (hf : fs ≤ U32MAX) :
     ∃ o, fpoEip x esp fs = .ok o ∧ ∀ a e, o = some (a, e) → a ≤ esp + fs + 4 := by
   have hu := u64_u32
+  have hw := fpo_word_eq
   unfold fpoEip
   rw [cadd64_ok _ _ _ (by omega)]
   simp only
@@ -183,7 +186,7 @@ theorem fpoEip_ok (x : FpoIn) (esp fs : Nat) (he : esp ≤ U32MAX) (hf : fs ≤ 
         split
         · rw [cadd64_ok _ _ _ (by omega)]
           simp only
-          cases hm2 : x.mem (esp + fs + 4) with
+          cases hm2 : x.mem (esp + fs + Consts.fpo_word) with
           | none => exact ⟨none, rfl, fun a e h => by cases h⟩
           | some e2 => exact ⟨_, rfl, fun a e h => by cases h; omega⟩
         · exact ⟨_, rfl, fun a e h => by cases h; omega⟩
